@@ -31,7 +31,7 @@ func init() {
 			return 16000
 		},
 		Run:      runC19,
-		Required: []string{"series.unsorted", "series.empty", "series.single", "series.with_ties", "series.large_offset", "experiments", "experiments.partly_solved", "experiments.no_trials", "trials.unsolved", "trials.empty"},
+		Required: []string{"series.unsorted", "series.empty", "series.single", "series.with_ties", "series.large_offset", "experiments", "experiments.partly_solved", "experiments.generations_reordered_in_place", "experiments.no_trials", "trials.unsolved", "trials.empty"},
 	})
 }
 
@@ -581,6 +581,22 @@ func runC19(c *Ctx, idx int) {
 		if kind, msg := checkAggregates(c, se, se.exp, true); kind != "" {
 			c.Violate(kind, map[string]interface{}{"experiment": se.brief()}, "%s", msg)
 			return
+		}
+		// the caller re-orders the recorded generations in place (Generations is a sort.Interface): the aggregates are those
+		// of the generations as they are recorded now, whatever was computed (and possibly remembered) before
+		if r.Intn(2) == 0 {
+			for ti := range se.exp.Trials {
+				gs := se.exp.Trials[ti].Generations
+				for a, b := 0, len(gs)-1; a < b; a, b = a+1, b-1 {
+					gs[a], gs[b] = gs[b], gs[a]
+					se.trials[ti][a], se.trials[ti][b] = se.trials[ti][b], se.trials[ti][a]
+				}
+			}
+			c.Count("experiments.generations_reordered_in_place", 1)
+			if kind, msg := checkAggregates(c, se, se.exp, true); kind != "" {
+				c.Violate(kind, map[string]interface{}{"experiment": se.brief(), "key": "after-reorder"}, "after the recorded generations were reversed in place: %s", msg)
+				return
+			}
 		}
 		for k := range held {
 			if !vecBitsEqual(held[k], heldCopy[k]) {
